@@ -48,6 +48,12 @@ class Func:
         return self.kind != 'plain'
 
     @property
+    def is_generator(self):
+        """a plain generator function (yields, but is not decorated as a coroutine): when it is only ever driven with
+        `yield from` from inside coroutines, its yields are the suspension points of those coroutines"""
+        return self.kind == 'plain' and any(isinstance(n, (ast.Yield, ast.YieldFrom)) for n in own_nodes(self.node))
+
+    @property
     def fq(self):
         return self.module.name + ':' + self.qual
 
